@@ -9,7 +9,7 @@ hist shape=<n|i3|t2;3|t> ops=g5,g,s7,Si4,St2;3,Sn
      → one field per state (constructor first, then one per op), separated by " | ":
        k=<next sample> e=<epoch> shape=<..> prod=<block|-> last=<block|->
        block = dims(;)/first/count/epoch
-histx shape=<n|i3|t2;3> ops=g,g5,g-3,gx,s7,s-1,sx,Sn,Si3,Si-1,St2;-1,Sx
+histx shape=<n|i3|t2;3> ops=g,g5,g-3,gx,s7,s-1,sx,Sn,Si3,Si-1,St2;-1,Sx,q   (q = a non-mutating call)
      → same fields as `hist` plus err=<-|ValueError|TypeError> per call (raw calls, rejected ones included)
 val Fd=f.. Ts=f.. first=<nat> j=<nat> phi=f..,f.. psi=f..,f..
                                                     → t=f.. re=f.. im=f.. | error:ZeroDivisionError
@@ -69,7 +69,8 @@ def parseRawShape? (s : String) : Option RawShape :=
   else none
 
 def parseRawOp? (s : String) : Option RawOp :=
-  if s.startsWith "g" then (parseSize? (s.drop 1).toString).map .gen
+  if s = "q" then some .query
+  else if s.startsWith "g" then (parseSize? (s.drop 1).toString).map .gen
   else if s.startsWith "s" then (parseSize? (s.drop 1).toString).map .skip
   else if s.startsWith "S" then (parseRawShape? (s.drop 1).toString).map .setShape
   else none
